@@ -20,6 +20,16 @@
     media   : `get_response_schema` (3.x) always takes the FIRST media type's schema                 (F11, part ii)
     hdrRef  : the `required` flag of a `$ref`'d header definition is read off the unresolved reference
     ctError : a malformed Content-Type makes `media_types.is_json` raise ValueError out of `validate_response`
+    hdrKw   : `OpenAPI30Parameter.supported_jsonschema_keywords` (the OpenAPI 3.0 Schema Object) filters the header
+              schema of OpenAPI 3.1 documents too: `const` (JSON Schema 2020-12) is dropped before validation
+    hdrType : the type that drives the string coercion of a header value is read off the top level of the
+              converted, unresolved schema (`nullable` already rewritten to `anyOf`, `$ref` not followed, `type`
+              defaulted to "string" beside them, type lists not understood)
+
+  Format checking (`format_checker=` of the two `jsonschema.validate` calls) is part of the model: `Draft.formats`
+  transcribes which format names each `<Draft>Validator.FORMAT_CHECKER` of jsonschema knows, `checkerFmt` is
+  `FormatChecker.conforms`, `headerChecker` / `bodyChecker` say which checker the code hands over (the 2020-12 one,
+  whatever the document's own validator class is).  The truth of "string s conforms to format f" stays an oracle `F`.
 
   Domain restrictions (stated as hypotheses / generator restrictions, never silently): characters are ASCII
   (`str.upper/lower/strip` on non-ASCII text differ), `int()` / `float()` are modelled on the grammar
@@ -39,10 +49,12 @@ structure Variants where
   media : Variant
   hdrRef : Variant
   ctError : Variant
+  hdrKw : Variant
+  hdrType : Variant
   deriving Repr, DecidableEq
 
-def Variants.allRepaired : Variants := ⟨.repaired, .repaired, .repaired, .repaired⟩
-def Variants.allAsFound : Variants := ⟨.asFound, .asFound, .asFound, .asFound⟩
+def Variants.allRepaired : Variants := ⟨.repaired, .repaired, .repaired, .repaired, .repaired, .repaired⟩
+def Variants.allAsFound : Variants := ⟨.asFound, .asFound, .asFound, .asFound, .asFound, .asFound⟩
 
 /-! ## text helpers (ASCII) -/
 
@@ -161,7 +173,8 @@ structure HeaderDef where
   name : List Char
   isRef : Bool                  -- the entry is `{"$ref": …}` (fields below are those of the resolved definition)
   required : Bool               -- `required` (3.x) / `x-required` (2.0)
-  schema : Json                 -- supported keywords of the header's schema (3.x: `schema`; 2.0: the definition)
+  schema : Json                 -- the header's schema as written (3.x: `schema`; 2.0: the header object itself)
+  target : Option Json          -- what the top-level `$ref` of `schema` points to (`none`: `schema` is no reference)
   deriving Repr
 
 /-- a response definition after `resolve_in_scope` -/
@@ -175,7 +188,16 @@ structure Doc where
   v2 : Bool                                   -- Swagger 2.0 (else OpenAPI 3.x)
   responses : List (List Char × RespDef)      -- in document order; keys as strings
   produces : List (List Char)                 -- 2.0: operation-level `produces`, else the global one
+  v31 : Bool                                  -- OpenAPI 3.1 (only read when `v2` is false)
   deriving Repr
+
+/-- the three document flavours the loader tells apart -/
+inductive Flavour where
+  | swagger2 | openapi30 | openapi31
+  deriving Repr, DecidableEq
+
+def Doc.flavour (doc : Doc) : Flavour :=
+  if doc.v2 then .swagger2 else if doc.v31 then .openapi31 else .openapi30
 
 structure Resp where
   status : Nat
@@ -317,15 +339,94 @@ def stringToBoolean (v : List Char) : Json :=
   else if falsy.contains (lower v) then .bool false
   else .str (String.ofList v)
 
-/-- `_coerce_header_value(value, schema)` -/
+/-- the coercion `_coerce_header_value` applies for one type name -/
+def coerceAs (t : String) (v : List Char) : Json :=
+  if t == "integer" then (match pyInt v with | some n => .num n 0 | none => .str (String.ofList v))
+  else if t == "number" then (match pyFloat v with | some (m, e) => .num m e | none => .str (String.ofList v))
+  else if t == "null" then (if lower v == "null".toList then .null else .str (String.ofList v))
+  else if t == "boolean" then stringToBoolean v
+  else .str (String.ofList v)
+
+/-- `_coerce_header_value(value, schema)`: driven by `schema.get("type")` when that is a single name -/
 def coerceHeader (v : List Char) (schema : Json) : Json :=
   match schemaType schema with
-  | some "string" => .str (String.ofList v)
-  | some "integer" => (match pyInt v with | some n => .num n 0 | none => .str (String.ofList v))
-  | some "number" => (match pyFloat v with | some (m, e) => .num m e | none => .str (String.ofList v))
-  | some "null" => if lower v == "null".toList then .null else .str (String.ofList v)
-  | some "boolean" => stringToBoolean v
-  | _ => .str (String.ofList v)
+  | some t => coerceAs t v
+  | none => .str (String.ofList v)
+
+/-! ### preparation of the header schema: `OpenAPIParameter.as_json_schema` -/
+
+/-- `OpenAPI20Parameter.supported_jsonschema_keywords` -/
+def supported2 : List String :=
+  ["$ref", "type", "format", "items", "maximum", "exclusiveMaximum", "minimum", "exclusiveMinimum", "maxLength",
+   "minLength", "pattern", "maxItems", "minItems", "uniqueItems", "enum", "multipleOf", "example", "examples"]
+
+/-- `OpenAPI30Parameter.supported_jsonschema_keywords` (used for 3.0 and 3.1 alike) -/
+def supported3 : List String :=
+  ["$ref", "multipleOf", "maximum", "exclusiveMaximum", "minimum", "exclusiveMinimum", "maxLength", "minLength",
+   "pattern", "maxItems", "minItems", "uniqueItems", "maxProperties", "minProperties", "required", "enum", "type",
+   "allOf", "oneOf", "anyOf", "not", "items", "properties", "additionalProperties", "format", "example", "examples"]
+
+def supported : Flavour → List String
+  | .swagger2 => supported2
+  | _ => supported3
+
+/-- `nullable_field` -/
+def nullableName : Flavour → String
+  | .swagger2 => "x-nullable"
+  | _ => "nullable"
+
+/-- `key in supported_jsonschema_keywords or key.startswith("x-") or key == nullable_field` -/
+def keepKey (fl : Flavour) (k : String) : Bool :=
+  (supported fl).contains k || "x-".toList.isPrefixOf k.toList || k == nullableName fl
+
+/-- `from_open_api_to_json_schema` -/
+def filterKw (fl : Flavour) (s : Json) : Json :=
+  match s with
+  | .obj kvs => .obj (kvs.filter fun kv => keepKey fl kv.1)
+  | _ => s
+
+def isNullableTrue (fl : Flavour) (kvs : List (String × Json)) : Bool :=
+  match Json.lookup (nullableName fl) kvs with
+  | some (.bool true) => true
+  | _ => false
+
+def typeNull : Json := .obj [("type", .str "null")]
+
+/-- `transform_keywords` as found: `to_json_schema` rewrites a top-level `nullable: true` to `anyOf`, THEN
+    `definition.setdefault("type", "string")` runs on the result -/
+def convertDefault (fl : Flavour) (s : Json) : Json :=
+  match s with
+  | .obj kvs =>
+    if isNullableTrue fl kvs then
+      .obj [("anyOf", .arr [.obj (kvs.filter fun kv => !(kv.1 == nullableName fl)), typeNull]), ("type", .str "string")]
+    else headerSchema s
+  | _ => s
+
+/-- the header schema the repaired code validates against: headers are strings unless typed; a reference is left
+    alone (its target says what it is) -/
+def prepSchema (s : Json) : Json :=
+  match s with
+  | .obj kvs => if (Json.lookup "$ref" kvs).isSome then s else headerSchema s
+  | _ => s
+
+/-- the type names a schema documents (`type` is a name or, in 3.1, a list of names) -/
+def typeNames (s : Json) : List String :=
+  match s.get? "type" with
+  | some (.str t) => [t]
+  | some (.arr ts) => ts.filterMap Json.str?
+  | _ => []
+
+/-- the types a header value may be read as: those of the schema (of the target of its `$ref`), "string" when there
+    are none, and "null" in addition when the schema is nullable -/
+def docTypes (fl : Flavour) (s : Json) : List String :=
+  let ts := if (typeNames s).isEmpty then ["string"] else typeNames s
+  match s with
+  | .obj kvs => if isNullableTrue fl kvs then ts ++ ["null"] else ts
+  | _ => ts
+
+/-- all readings of a header value through the string coercion of the documented types -/
+def readings (fl : Flavour) (h : HeaderDef) (v : List Char) : List Json :=
+  (docTypes fl (h.target.getD h.schema)).map fun t => coerceAs t v
 
 /-- the flag the missing-header test reads -/
 def requiredFlag (v : Variant) (h : HeaderDef) : Bool :=
@@ -336,9 +437,31 @@ def requiredFlag (v : Variant) (h : HeaderDef) : Bool :=
 def headerMissing (v : Variant) (r : Resp) (h : HeaderDef) : Bool :=
   (lookupHeader (lower h.name) r.headers).isNone && requiredFlag v h
 
-def headerInvalid (V : Json → Json → Bool) (r : Resp) (h : HeaderDef) : Bool :=
+/-- the schema after the keyword filter of the variant in force -/
+def keptSchema (v : Variant) (fl : Flavour) (h : HeaderDef) : Json :=
+  match v with
+  | .asFound => filterKw fl h.schema
+  | .repaired => h.schema
+
+/-- the schema `as_json_schema` hands to the validator as found.  A header definition that is itself a `$ref` is
+    resolved late and through the ConvertingResolver (the `hdrRef` site), so it arrives already converted: a nullable
+    schema is `anyOf` by then and the keyword filter, which looks at the top level only, no longer reaches its keywords -/
+def preparedAsFound (ref kw : Variant) (fl : Flavour) (h : HeaderDef) : Json :=
+  match ref, h.schema with
+  | .asFound, .obj kvs =>
+    if h.isRef && isNullableTrue fl kvs then convertDefault fl h.schema else convertDefault fl (keptSchema kw fl h)
+  | _, _ => convertDefault fl (keptSchema kw fl h)
+
+/-- a present header value does not validate -/
+def valueInvalid (V : Json → Json → Bool) (vs : Variants) (fl : Flavour) (h : HeaderDef) (value : List Char) : Bool :=
+  match vs.hdrType with
+  | .asFound =>
+    !(V (preparedAsFound vs.hdrRef vs.hdrKw fl h) (coerceHeader value (preparedAsFound vs.hdrRef vs.hdrKw fl h)))
+  | .repaired => !((readings fl h value).any (V (prepSchema (keptSchema vs.hdrKw fl h))))
+
+def headerInvalid (V : Json → Json → Bool) (vs : Variants) (fl : Flavour) (r : Resp) (h : HeaderDef) : Bool :=
   match lookupHeader (lower h.name) r.headers with
-  | some value => !(V (headerSchema h.schema) (coerceHeader value (headerSchema h.schema)))
+  | some value => valueInvalid V vs fl h value
   | none => false
 
 def headersCheck (V : Json → Json → Bool) (vs : Variants) (doc : Doc) (r : Resp) : Out :=
@@ -346,7 +469,7 @@ def headersCheck (V : Json → Json → Bool) (vs : Variants) (doc : Doc) (r : R
   | none => .ok []
   | some d =>
     .ok ((if d.headers.any (headerMissing vs.hdrRef r) then [.missingHeaders] else []) ++
-         (d.headers.filter (headerInvalid V r)).map fun _ => .headerSchema)
+         (d.headers.filter (headerInvalid V vs doc.flavour r)).map fun _ => .headerSchema)
 
 /-! ## response_schema_conformance = validate_response -/
 
@@ -412,5 +535,50 @@ def combine : List Out → Out
 
 def runAll (V : Json → Json → Bool) (vs : Variants) (doc : Doc) (r : Resp) : Out :=
   combine [statusCheck doc r, contentTypeCheck vs doc r, headersCheck V vs doc r, bodyCheck V vs doc r]
+
+/-! ## format checking: `jsonschema.validate(…, cls=validator_cls, format_checker=…)` -/
+
+/-- the `jsonschema` validator classes schemathesis can name; each carries a `FORMAT_CHECKER` -/
+inductive Draft where
+  | d4 | d6 | d7 | d201909 | d202012
+  deriving Repr, DecidableEq
+
+/-- the format names registered for `<Draft>Validator.FORMAT_CHECKER` (jsonschema/_format.py, `_checks_drafts`) -/
+def Draft.formats : Draft → List String
+  | .d4 => ["email", "idn-email", "ipv4", "ipv6", "hostname", "uri", "date-time", "regex"]
+  | .d6 => ["email", "idn-email", "ipv4", "ipv6", "hostname", "uri", "uri-reference", "date-time", "regex",
+            "json-pointer", "uri-template"]
+  | .d7 => ["email", "idn-email", "ipv4", "ipv6", "hostname", "idn-hostname", "iri", "iri-reference", "uri",
+            "uri-reference", "date-time", "time", "regex", "date", "json-pointer", "relative-json-pointer",
+            "uri-template"]
+  | .d201909 => ["email", "idn-email", "ipv4", "ipv6", "hostname", "idn-hostname", "iri", "iri-reference", "uri",
+                 "uri-reference", "date-time", "time", "regex", "date", "json-pointer", "relative-json-pointer",
+                 "uri-template", "duration", "uuid"]
+  | .d202012 => ["email", "idn-email", "ipv4", "ipv6", "hostname", "idn-hostname", "iri", "iri-reference", "uri",
+                 "uri-reference", "date-time", "time", "regex", "date", "json-pointer", "relative-json-pointer",
+                 "uri-template", "duration", "uuid"]
+
+/-- `FormatChecker.conforms(v, f)` of draft `d`'s checker over the truth `F` of the format predicates: a name the
+    checker does not know conforms -/
+def checkerFmt (d : Draft) (F : String → Json → Bool) (f : String) (v : Json) : Bool :=
+  !(d.formats.contains f) || F f v
+
+/-- `BaseOpenAPISchema.validator_cls` -/
+def validatorCls : Flavour → Draft
+  | .openapi31 => .d202012
+  | _ => .d4
+
+/-- `format_checker=` in `response_headers_conformance` (checks.py): the 2020-12 checker for every flavour -/
+def headerChecker (_ : Flavour) : Draft := .d202012
+
+/-- `format_checker=` in `validate_response` (schemas.py): the 2020-12 checker for every flavour -/
+def bodyChecker (_ : Flavour) : Draft := .d202012
+
+/-- the four checks with JSON-Schema validity `W` parametrised by the format predicate it is given -/
+def runAllF (W : (String → Json → Bool) → Json → Json → Bool) (F : String → Json → Bool) (vs : Variants) (doc : Doc)
+    (r : Resp) : Out :=
+  combine [statusCheck doc r, contentTypeCheck vs doc r,
+           headersCheck (W (checkerFmt (headerChecker doc.flavour) F)) vs doc r,
+           bodyCheck (W (checkerFmt (bodyChecker doc.flavour) F)) vs doc r]
 
 end SV.Model.C04
